@@ -694,6 +694,12 @@ public:
     json::Object o;
     o["id"] = id;
     o["name"] = qualName(F);
+    {
+      std::string qs;
+      llvm::raw_string_ostream qos(qs);
+      F->printQualifiedName(qos, PP);
+      o["qname"] = qos.str();
+    }
     o["sname"] = F->getNameAsString();
     o["loc"] = locStr(F->getLocation());
     const char* kind = "function";
